@@ -31,6 +31,7 @@ def run(ctx):
     a_single_evaluation(ctx)
     a_reserved_names(ctx)
     a_arguments_bound_once(ctx)
+    a_restart_arguments(ctx)
     b_return_presence(ctx)
 
 
@@ -511,6 +512,22 @@ def b_return_var_every_branch(ctx):
                   "%s has a branch that returns its expansion without looking at element.return_var_name: `$x = %s <group>` is accepted and executed but $x is never assigned "
                   "(it silently keeps its previous value)" % (name, "await" if "await" in name else "match"), line=fn.lineno)
     ctx.floor("C08.b.return-var-every-branch", EXP, "statements that use element.return_var_name in the two expanders", n, 2)
+
+
+def a_restart_arguments(ctx):
+    """An activated flow is restarted with the StartFlow event FlowState.start_event builds.  Its parameters must be the ARGUMENTS the instance was called with
+    (`self.arguments`), not the instance's context: the body may have re-assigned a parameter (`$count = $count + 1`), and locals of one instance never reach another."""
+    t = ctx.tree.ast(FLOWS)
+    fn = find_function(t, "start_event", "FlowState")
+    if fn is None:
+        raise AnalysisError("FlowState.start_event not found", anchor=FLOWS + "::FlowState.start_event")
+    reads_args = any(isinstance(a, ast.Attribute) and src(a) == "self.arguments" for a in ast.walk(fn))
+    ctx_reads = [a for a in ast.walk(fn) if isinstance(a, ast.Attribute) and src(a) == "self.context" and isinstance(a.ctx, ast.Load)]
+    ok = reads_args and not ctx_reads
+    ctx.check("C08.a.restart-arguments", FLOWS, "FlowState.start_event", "parameters of the restart event", ok,
+              "the StartFlow event of a restart carries `self.arguments` (the values of the original call) and reads nothing from the instance's context" if ok else
+              "the StartFlow event of a restart reads `self.context` (line %d): a parameter the body re-assigned is handed to the next instance - the second instance of an activated "
+              "flow starts from the first one's local value instead of the activation argument or default" % (ctx_reads[0].lineno if ctx_reads else fn.lineno), line=fn.lineno)
 
 
 def c_context(ctx):
